@@ -43,6 +43,8 @@ def run(ctx):
     cg.rule_setup(ctx, "SETUP", fi)
     if cg.rule_cause_index(ctx, "SETUP", fu) < 2:
         ctx.fail("_update_contingency_results_parallel: fewer than 2 comparisons with cause_index found")
+    if cg.rule_dup_keyword(ctx, "SETUP", fi) < 3:
+        ctx.fail("run_contingency_parallel: fewer than 3 calls forwarding **kwargs found")
     for c in calls_in(fi.node):
         if isinstance(c.func, ast.Attribute) and c.func.attr in ("map", "starmap", "imap"):
             cs = next((k.value for k in c.keywords if k.arg == "chunksize"), c.args[2] if len(c.args) > 2 else None)
@@ -98,6 +100,7 @@ def variants(repo):
         V("worker bound to the base-case options", p, lambda s: s.replace("def _run_single_contingency(contingency_case, net, pf_options_nminus1,", "def _run_single_contingency(contingency_case, net, pf_options,", 1).replace("contingency_evaluation_function(net_copy, **pf_options_nminus1, **kwargs)", "contingency_evaluation_function(net_copy, **pf_options, **kwargs)", 1).replace("net=net, pf_options_nminus1=pf_options_nminus1,", "net=net, pf_options=pf_options,", 1), "worker"),
         V("own-outage exclusion without the type test", p, in_function("_update_contingency_results_parallel", replace_once("                    if parallel_results and element == cause_element:\n                        valid = valid &", "                    if parallel_results:\n                        valid = valid &")), "cause-index"),
         V("overload flag located in the affected table", p, in_function("_update_contingency_results_parallel", replace_once('contingency_results[cause_element]["index"] == cause_index] = True', 'contingency_results[element]["index"] == cause_index] = True')), "cause-index"),
+        V("raise_errors left in kwargs", p, replace_once('raise_errors = kwargs.pop("raise_errors", False)', 'raise_errors = kwargs.get("raise_errors", False)'), "dup-keyword"),
         V("chunk size can be zero", p, replace_once("results_list = pool.map(worker_func, tasks)", "results_list = pool.map(worker_func, tasks, chunksize=len(tasks) // n_procs)"), "chunksize"),
         V("twin: chunk size at least one", p, replace_once("results_list = pool.map(worker_func, tasks)", "results_list = pool.map(worker_func, tasks, chunksize=max(1, len(tasks) // n_procs))"), None),
         V("pool size capped by the number of cases", p, replace_once("mp.Pool(processes=n_procs)", "mp.Pool(processes=min(n_procs, len(tasks)))"), "pool-size"),
